@@ -63,6 +63,12 @@ func refGraph(p *scen.GraphProg) graphRef {
 				}
 			}
 		}
+		for _, x := range p.Extra {
+			if x.Node == i && strings.HasSuffix(x.Kind, "-req") {
+				r.mustError = true
+				r.why = fmt.Sprintf("required point / configuration value (%s) of %s cannot be satisfied", x.Kind, scen.Name(i, p.N))
+			}
+		}
 		for k := range has {
 			if others[k] == 0 {
 				r.mustError = true
